@@ -15,6 +15,9 @@ def run_main(sb_dir, case, variant, out_mode='abs'):
     else:
         os.makedirs(os.path.dirname(p), exist_ok=True)
         with open(p, 'wb') as f: f.write(inp['content'].encode('utf-8'))
+    more = []
+    for k, other in enumerate(case['inputs'][1:], 1):      # further inputs of the same invocation (directories)
+        q = os.path.join(base, '+loc+', '+i%d+' % k, other['name']); T.materialize(q, other['children']); more.append((q, other))
     home = os.path.join(base, 'home'); os.makedirs(os.path.join(home, '.config'), exist_ok=True)
     work = os.path.join(base, '+work+'); os.makedirs(work, exist_ok=True)
     sfile = os.path.join(base, 's.yaml')
@@ -32,12 +35,16 @@ def run_main(sb_dir, case, variant, out_mode='abs'):
     if u_p:
         os.makedirs(os.path.join(home, '.config', 'cminx'), exist_ok=True)
         with open(os.path.join(home, '.config', 'cminx', 'config.yaml'), 'w') as f: f.write(yaml.safe_dump({'input': {'exclude_filters': u_p}}))
-    args = [p, '-s', sfile]
+    args = [p] + [q for q, _ in more] + ['-s', sfile]
     if st['recursive']: args.append('-r')
     if st.get('prefix') is not None: args += ['-p', st['prefix']]
     for pt in cli_p: args += ['-e', pt]
     out_abs = None
-    if case.get('output') is not None:
+    if case.get('output') is not None and out_mode == 'sfile-rel':
+        # (10) the output directory comes from the -s file, relative: "resolved against the current directory" (relative_to_config off)
+        out_abs = os.path.join(work, 'rel', 'out'); cfgd['output'] = {'directory': os.path.join('rel', 'out')}
+        with open(sfile, 'w') as f: f.write(yaml.safe_dump(cfgd))
+    elif case.get('output') is not None:
         if out_mode == 'rel':      # a relative output directory is meant relative to the directory the command runs in
             out_abs = os.path.join(work, 'rel', 'out'); args += ['-o', os.path.join('rel', 'out')]
         else:
@@ -52,7 +59,9 @@ def run_main(sb_dir, case, variant, out_mode='abs'):
         with contextlib.redirect_stdout(stdout), contextlib.redirect_stderr(io.StringIO()):
             try:
                 if inp['kind'] == 'dir':
-                    with T.imposed_listing(p, inp['children']): cminx.main(args)
+                    with contextlib.ExitStack() as es:
+                        es.enter_context(T.imposed_listing(p, inp['children']))
+                        cminx.main(args)
                 else: cminx.main(args)
             except SystemExit as e: status = 'exit:%r' % (e.code,)
             except BaseException as e:
@@ -87,19 +96,26 @@ def cli_suite(prop, seed, count, out, drv):
         case['inputs'] = case['inputs'][:1]; case.pop('target', None)
         case['inputs'][0]['spelled'] = 'abs'
         rel_mode = n % 2 == 1      # every other case: a relative -o, which must land below the working directory and nowhere else
+        sfile_mode = rel_mode and n % 4 == 3      # ... or a relative output.directory in the -s file
+        if prop in ('C15', 'C13') and n % 3 == 0 and case['inputs'][0]['kind'] == 'dir':
+            # a second directory in the same invocation (a copy of the first under another name): the exclude patterns of all
+            # sources apply to every input, not just to the first one
+            import copy
+            case['inputs'].append(dict(kind='dir', name='second_' + case['inputs'][0]['name'], spelled='abs', children=copy.deepcopy(case['inputs'][0]['children'])))
+            for c in case['inputs'][1]['children']: c.pop('dirlink', None)
         case['output'] = None if (prop == 'C18' and not rel_mode) else 'abs'
         if prop == 'C15' and len(case.get('patterns', [])) < 2: case['patterns'] = list(case.get('patterns', [])) + ['*.txt', 'b.cmake', 'sub/']
         if case['settings'].get('cfg') and case['settings']['cfg'].get('trigger') is not None: case['settings']['cfg'].pop('trigger', None)
         key = (prop, 'cli', seed, n)
         with impl.Sandbox() as sb:
             api = T.run_real(sb.dir, case, variant='api')
-            cli = run_main(sb.dir, case, 'cli', out_mode='rel' if rel_mode else 'abs')
+            cli = run_main(sb.dir, case, 'cli', out_mode='sfile-rel' if sfile_mode else ('rel' if rel_mode else 'abs'))
         out.traces_validated += 2; out.note_case(key, True); out.dist['cli:' + cli['status']] += 1
         rec = dict(suite='cli', key=key, case=case)
         if api['status'] != 'ok': continue
         if cli['status'] != 'ok':
             out.violations.append(dict(rec, detail=dict(kind='command line fails where the API succeeds', status=cli['status']), model_agrees=True)); continue
-        if cli.get('stray') or [c for c in cli.get('changed_outside', []) if not c.startswith('home')]:
+        if cli.get('stray') or [c for c in cli.get('changed_outside', []) if not c.startswith('home') or c.endswith('.rst') or '/rel/' in c or c.endswith('/rel/')]:
             out.violations.append(dict(rec, detail=dict(kind='the command line run created or changed something outside the requested output directory',
                                                         stray=cli.get('stray'), changed=cli.get('changed_outside', [])[:6]), model_agrees=True)); continue
         if prop == 'C18' and case['output'] is None:
